@@ -237,6 +237,13 @@ type caseEnv struct {
 	// concrete[h]: the only value the other validators ever precommit at height h is a fixed value
 	// chosen by the script (not "whatever the node proposed"), so h has one possible decision.
 	concrete map[types.Height]bool
+	// tableFrom: first height with a drawn proposer/timer table (= startH in the short cases)
+	tableFrom types.Height
+	// long runs (genLongCase): the heights startH..fillerTo are filler heights
+	long     bool
+	fillerTo types.Height
+	// showFrom (rendering only): inputs and calls of lower heights are left out of violation reports
+	showFrom types.Height
 }
 
 func (e *caseEnv) delayOf(k timerKey) int {
